@@ -91,9 +91,15 @@ def make_probe(desc, kk):
         for k in perm:
             stmts.append(A.Assign(access(o, k, path), I(ref[k])))
         lit = A.obj(*[(k, I(ref[k])) for k in keys])
+        # an object that differs only in the NAME of one property (same values in key order) is a different object
+        other = dict(ref)
+        kmax = sorted(ref, key=korder)[-1]
+        other[kmax + "z"] = other.pop(kmax)
+        lit2 = A.obj(*[(k, I(v)) for k, v in other.items()])
+        stmts += [A.pr(A.Bin("==", V(o), lit2)), A.pr(A.Bin("!=", A.clone(lit2), V(o)))]
         stmts += [A.pr(V(o)), A.pr(A.Bin("==", V(o), lit)),
                   A.For(A.lst(V("ik"), V("iv")), V(o), [A.pr(A.Bin("+", A.Bin("+", S("<"), V("ik")), S(">")))])]
-        lines = render_obj(ref) + ["true"] + ["<%s>" % k for k in sorted(ref, key=korder)]
+        lines = ["false", "true"] + render_obj(ref) + ["true"] + ["<%s>" % k for k in sorted(ref, key=korder)]
         # destructuring with collect must give the remaining keys in order too
         first = sorted(ref, key=korder)[0]
         stmts += [A.Declare(A.ObjectE([A.Pair(S(first), V("f%d" % kk)), A.Single(V("r%d" % kk), False, True)]), V(o)), A.pr(V("r%d" % kk))]
